@@ -67,12 +67,29 @@ fn scan_case(t: &mut Tape, obs: &mut Obs, scanner: bool) -> CaseResult {
         cfg.stations[0].addr = t.below(126) as u8;
         cfg.ttr_bits = 126 * 5000;
     }
+    // a scanning station on a PHY whose transmissions end later than nominal (UART FIFO, USB adapter;
+    // a third of the cases, decided by the slot time): the slot time counts from the real end.  The
+    // station learns about that end from poll_transmission() only, i.e. with the precision of its
+    // poll period: such a station is polled at least every 8 bit times here and the responders
+    // leave 12 bit times more of the slot time unused.
+    let latency = cfg.slot_bits % 3 == 0;
+    if latency {
+        let p = cfg.bits_us(8).max(1);
+        for s in cfg.stations.iter_mut() {
+            s.period_us = s.period_us.min(p);
+        }
+    }
     let masters = cfg.sorted_addrs();
     let own = cfg.stations[0].addr;
-    let max_delay = u64::from(cfg.slot_bits) - 15;
+    let max_delay = u64::from(cfg.slot_bits) - 15 - if latency { 12 } else { 0 };
     let pop: Pop = Rc::new(RefCell::new(gen_population(t, &masters, max_delay)));
     let mut sim = Sim::new(cfg.clone(), 1);
     sim.virtuals.push(Box::new(Peers { peers: BTreeMap::new(), shared: Some(pop.clone()), bit_ns: cfg.bits_ns(1000).max(1) / 1000, answered: 0 }));
+    if latency {
+        let lat = cfg.bits_us(u64::from(cfg.slot_bits) / 3);
+        sim.bus.0.borrow_mut().tx_latency_us[0] = lat;
+        obs.label("phy-with-transmit-latency");
+    }
     let requests = Rc::new(Cell::new(0u64));
     let ll = Rc::new(RefCell::new(LiveList::new()));
     let sc = Rc::new(RefCell::new(DpScanner::new()));
@@ -220,10 +237,11 @@ fn scan_case(t: &mut Tape, obs: &mut Obs, scanner: bool) -> CaseResult {
 pub fn property() -> Property {
     Property {
         id: "C18",
-        rule: "cases: one real station (any address; in a fifth of the cases a second real master) with the unmodified LiveList or DpScanner behind a request-counting wrapper, a generated population of passive responders over 0..125 (status-only stations - some answering with a response status other than OK -, DP slaves answering Slave_Diag with ident 0x4000+address, silent addresses; corner addresses 0, 124, 125), 1..4 phases with generated appearances / disappearances and lossy phases (replies dropped), then an unchanged, fault-free population for two full sweeps (252 application requests + margin). Oracle: iter_stations() equals the addresses answering status requests (other masters included, own address excluded); the scanner's knowledge reconstructed from its events equals the answering DP peripherals with their idents; Discovered/Found and Lost alternate per address and agree with the final list; only addresses 0..125 are probed. Non-trivial = final population non-empty; distinct by (own address, final population, number of changes, baud).",
+        rule: "cases: one real station (any address; in a fifth of the cases a second real master) with the unmodified LiveList or DpScanner behind a request-counting wrapper, a generated population of passive responders over 0..125 (status-only stations - some answering with a response status other than OK -, DP slaves answering Slave_Diag with ident 0x4000+address, silent addresses, defective devices whose replies break off; corner addresses 0, 124, 125; in a third of the cases the scanning station sits on a PHY with a transmit latency of a third of the slot time), 1..4 phases with generated appearances / disappearances and lossy phases (replies dropped), then an unchanged, fault-free population for two full sweeps (252 application requests + margin). Oracle: iter_stations() equals the addresses answering status requests (other masters included, own address excluded); the scanner's knowledge reconstructed from its events equals the answering DP peripherals with their idents; Discovered/Found and Lost alternate per address and agree with the final list; only addresses 0..125 are probed. Non-trivial = final population non-empty; distinct by (own address, final population, number of changes, baud).",
         assumptions: vec![
             "responders that answer a status request with a short confirmation are outside the domain (N3)",
             "events are collected after every poll",
+            "a station on a PHY with transmit latency learns about the real end of its transmission from poll_transmission() only, i.e. with the precision of its poll period: it is polled at least every 8 bit times and the responders leave 12 bit times more of the slot time unused",
         ],
         subchecks: vec![
             SubCheck::tape("live_list", "LiveList against a changing population", |t, obs| scan_case(t, obs, false)),
